@@ -173,9 +173,11 @@ def parse_time(e):
 
 def parse_safe(h):
     try:
-        return parse_time(h.sympy)
+        return limited(60, parse_time, h.sympy)
     except Unparsed as e:
         return {'unparsed': str(e)[:120], 'text': str(h.sympy)[:400]}
+    except Timeout:
+        return {'unparsed': 'parser timeout', 'text': str(h.sympy)[:400]}
     except Exception as e:
         return {'unparsed': type(e).__name__ + ': ' + str(e)[:120], 'text': str(h.sympy)[:400]}
 
@@ -219,6 +221,26 @@ def lim_str(v):
         return 'other:' + str(v)[:60]
 
 
+class Timeout(Exception):
+    pass
+
+
+def _alarm(sig, frm):
+    raise Timeout()
+
+
+def limited(seconds, fn, *a):
+    """run fn(*a) under a wall-clock limit (SIGALRM); raises Timeout"""
+    import signal
+    old = signal.signal(signal.SIGALRM, _alarm)
+    signal.alarm(seconds)
+    try:
+        return fn(*a)
+    finally:
+        signal.alarm(0)
+        signal.signal(signal.SIGALRM, old)
+
+
 def run(case):
     damping = case.get('damping')
     opts = {}
@@ -235,7 +257,10 @@ def run(case):
     out = {'expr': str(e)[:300]}
     ILTR.clear_cache()
     try:
-        h1 = X(lt, **opts)
+        h1 = limited(120, lambda: X(lt, **opts))
+    except Timeout:
+        out['error'] = 'timeout: inverse transform'
+        h1 = None
     except Exception as ex:
         out['error'] = type(ex).__name__ + ': ' + str(ex)[:200]
         h1 = None
@@ -259,26 +284,26 @@ def run(case):
         out['again'] = bool(h3.sympy == h1.sympy)
         if case.get('ivfv'):
             try:
-                out['tiv'] = lim_str(h1.post_initial_value())
-            except Exception as ex:
+                out['tiv'] = limited(20, lambda: lim_str(h1.post_initial_value()))
+            except BaseException as ex:
                 out['tiv'] = 'error:' + type(ex).__name__
             try:
                 hh = h1.remove_condition() if hasattr(h1, 'remove_condition') else h1
-                out['tfv'] = lim_str(hh.final_value())
-            except Exception as ex:
+                out['tfv'] = limited(20, lambda: lim_str(hh.final_value()))
+            except BaseException as ex:
                 out['tfv'] = 'error:' + type(ex).__name__
     try:
-        out['certs'] = [cert(tm, damping) for tm in case['terms']]
-    except Exception as ex:
+        out['certs'] = limited(120, lambda: [cert(tm, damping) for tm in case['terms']])
+    except BaseException as ex:
         out['certs_error'] = type(ex).__name__ + ': ' + str(ex)[:200]
     if case.get('ivfv'):
         try:
-            out['iv'] = lim_str(X.post_initial_value())
-        except Exception as ex:
+            out['iv'] = limited(20, lambda: lim_str(X.post_initial_value()))
+        except BaseException as ex:
             out['iv'] = 'error:' + type(ex).__name__
         try:
-            out['fv'] = lim_str(X.final_value())
-        except Exception as ex:
+            out['fv'] = limited(20, lambda: lim_str(X.final_value()))
+        except BaseException as ex:
             out['fv'] = 'error:' + type(ex).__name__
     return out
 
